@@ -46,6 +46,7 @@ class Profile:
     allow_all: bool = True  # well-behaved clients may subscribe to ALL_MESSAGE_TYPES
     allow_dynamic: bool = True
     max_hostile: int = 6
+    preconnect_subs: int = 8  # 1 in N subscription requests comes from a connection that has not sent CONNECT yet (0 = never)
 
     def codes(self):
         out = []
@@ -110,6 +111,15 @@ def resolve(w: World, raw, pf: Profile) -> Optional[dict]:
         if len(live) >= pf.max_conns or len(w.mods) >= pf.max_conns * 3:
             return None
         return {"op": "open"}
+    if code == CONNECT and e % 6 == 5:
+        # a module that has completed its handshake sends a connect frame again (a retrying raw client):
+        # it must be ignored - not acknowledged, nothing re-assigned
+        again = [m for m in _usable(w) if m.connected and m.idx not in pf.protected]
+        if again:
+            m = again[a % len(again)]
+            rid = [m.mod_id, 0, m.mod_id, 55][b % 4]
+            return {"op": "connect", "c": m.idx, "ver": ["v2", "v1", "v2v1"][c % 3], "id": rid, "logger": (c // 3) % 2,
+                    "daemon": 0, "multi": (c // 6) % 2, "name": ["", "again"][d % 2], "pid": 3000 + m.idx}
     if code == CONNECT:
         fresh = [m for m in w.mods if not m.client_closed and not getattr(m, "h_connect", False)]
         if not fresh:
@@ -146,6 +156,13 @@ def resolve(w: World, raw, pf: Profile) -> Optional[dict]:
         m.h_id = rid
         return {"op": "connect", "c": m.idx, "ver": ver, "id": rid, "logger": logger, "daemon": daemon,
                 "multi": multi, "name": name, "pid": 1000 + m.idx}
+    if code == SUB and pf.preconnect_subs and e % pf.preconnect_subs == 1:
+        # a raw client may send subscription requests before it sends CONNECT (module id 0 until then)
+        fresh = [m for m in w.mods if not m.client_closed and not getattr(m, "h_connect", False) and not m.conn.manager_closed]
+        if fresh:
+            m = fresh[a % len(fresh)]
+            kind = ["SUBSCRIBE", "UNSUBSCRIBE", "PAUSE", "RESUME"][[0, 0, 0, 1, 2, 3, 0, 1][b % 8]]
+            return {"op": "sub", "c": m.idx, "kind": kind, "type": _pick_type(pf, c, with_all=pf.allow_all), "pre": 1}
     if code in (SUB, PUB, READY, SETNAME, DISCONNECT, BURST):
         us = _usable(w)
         if not us:
@@ -156,7 +173,10 @@ def resolve(w: World, raw, pf: Profile) -> Optional[dict]:
         if code == SUB:
             kind = ["SUBSCRIBE", "UNSUBSCRIBE", "PAUSE", "RESUME"][[0, 0, 0, 1, 2, 3, 0, 1][b % 8]]
             t = _pick_type(pf, c, with_all=True)
-            return {"op": "sub", "c": m.idx, "kind": kind, "type": t}
+            op = {"op": "sub", "c": m.idx, "kind": kind, "type": t}
+            if d % 5 == 0:
+                op["seg"] = [1, w.sim.hsize - 1, w.sim.hsize, w.sim.hsize + 2][(d // 5) % 4]
+            return op
         if code == PUB:
             if sum(1 for u in m.queue if u["kind"] == "pub") >= pf.max_pending_pubs:
                 return None
@@ -170,7 +190,12 @@ def resolve(w: World, raw, pf: Profile) -> Optional[dict]:
             # the largest sizes at low weight
             size = szpool[e % len(szpool)] if (e // 16) % 4 == 0 else szpool[e % min(5, len(szpool))]
             src = m.mod_id if m.connected else m.h_id
-            return {"op": "pub", "c": m.idx, "type": t, "dm": dm, "dh": dh, "size": size, "src": src}
+            op = {"op": "pub", "c": m.idx, "type": t, "dm": dm, "dh": dh, "size": size, "src": src}
+            if (e // 64) % 4 == 0:
+                # the frame reaches the manager in two pieces (only the first has arrived when it is served)
+                hs = w.sim.hsize
+                op["seg"] = [1, hs - 1, hs, hs + 1, hs + max(size // 2, 1), 4][(e // 256) % 6]
+            return op
         if code == READY:
             return {"op": "ready", "c": m.idx, "pid": 2000 + (b % 50)}
         if code == SETNAME:
